@@ -34,6 +34,7 @@ import (
 	"time"
 	"unsafe"
 
+	"github.com/krotik/ecal/interpreter"
 	eparser "github.com/krotik/ecal/parser"
 	"github.com/krotik/ecal/stdlib"
 	"github.com/krotik/ecal/util"
@@ -468,6 +469,24 @@ func c19Scope() eparser.Scope {
 	return vs
 }
 
+var c19Erp *interpreter.ECALRuntimeProvider
+
+// c19Eval is evalProgram with ONE runtime provider per process: every provider starts a cron
+// goroutine that is never stopped, and a thorough run evaluates some 10^5 programs per process.
+func c19Eval(src string) (interface{}, error) {
+	if c19Erp == nil {
+		c19Erp = interpreter.NewECALRuntimeProvider("t", nil, &memLog{})
+	}
+	ast, err := eparser.ParseWithRuntime("t", src, c19Erp)
+	if err != nil {
+		return nil, err
+	}
+	if err = ast.Runtime.Validate(); err != nil {
+		return nil, err
+	}
+	return ast.Runtime.Eval(c19Scope(), make(map[string]interface{}), c19Erp.NewThreadID())
+}
+
 func c19Run(payload string) (res string) {
 	f := strings.Split(payload, " ")
 	t := c19ByName[f[0]]
@@ -519,7 +538,7 @@ func c19Run(payload string) (res string) {
 	if mode == "T" {
 		src = "r := \"c19-none\"\ntry {\n  r := " + call + "\n} except e {\n  r := \"c19-caught\"\n}\nr"
 	}
-	ret, err := evalProgram(src, c19Scope(), &memLog{})
+	ret, err := c19Eval(src)
 	if err != nil {
 		if _, ok := err.(*util.RuntimeError); !ok {
 			return fmt.Sprintf("NOT-A-RUNTIME-ERROR %T", err)
@@ -648,7 +667,7 @@ func c19Extract(args []string) int {
 		fmt.Fprintln(os.Stderr, err)
 		return 2
 	}
-	var named, deferFirst, callsRecover, assignsErr bool
+	var named, deferFirst, callsRecover, assignsErr, arityChecked bool
 	for _, d := range file.Decls {
 		fd, ok := d.(*ast.FuncDecl)
 		if !ok || fd.Name.Name != "Run" || fd.Recv == nil || fd.Body == nil {
@@ -670,6 +689,7 @@ func c19Extract(args []string) int {
 		if len(fd.Body.List) == 0 {
 			continue
 		}
+		arityChecked = c19ArityChecked(fd)
 		ds, ok := fd.Body.List[0].(*ast.DeferStmt)
 		if !ok {
 			continue
@@ -716,14 +736,71 @@ func c19Extract(args []string) int {
 	sb.WriteString("namespace Ecal.Gen.C19\nopen Ecal.Bridge\n\n")
 	sb.WriteString("/-- shape of `func (ea *ECALFunctionAdapter) Run(...) (ret interface{}, err error)` -/\n")
 	sb.WriteString("def runShape : Shape :=\n")
-	sb.WriteString(fmt.Sprintf("  { errIsNamedResult := %v, firstStmtIsDefer := %v, closureCallsRecover := %v, closureAssignsErr := %v }\n",
-		named, deferFirst, callsRecover, assignsErr))
+	sb.WriteString(fmt.Sprintf("  { errIsNamedResult := %v, firstStmtIsDefer := %v, closureCallsRecover := %v, closureAssignsErr := %v,\n    arityChecked := %v }\n",
+		named, deferFirst, callsRecover, assignsErr, arityChecked))
 	sb.WriteString("\nend Ecal.Gen.C19\n")
 	if err := os.WriteFile(args[0], []byte(sb.String()), 0644); err != nil {
 		fmt.Fprintln(os.Stderr, err)
 		return 2
 	}
 	return 0
+}
+
+// c19ArityChecked: does Run reject surplus arguments by an explicit check that returns (nil, <error>)?
+// Accepted shapes: the first statement of the `for K, _ := range args` loop is
+// `if K == X.NumIn() {…}` / `if K >= X.NumIn() {…}`, or a statement before that loop is
+// `if len(args) > X.NumIn() {…}`; in both the block ends in `return nil, <non-nil expression>`.
+func c19ArityChecked(fd *ast.FuncDecl) bool {
+	if fd.Type.Params == nil || len(fd.Type.Params.List) == 0 {
+		return false
+	}
+	last := fd.Type.Params.List[len(fd.Type.Params.List)-1]
+	if len(last.Names) == 0 {
+		return false
+	}
+	argsName := last.Names[len(last.Names)-1].Name
+	isNumIn := func(e ast.Expr) bool {
+		ce, ok := e.(*ast.CallExpr)
+		if !ok || len(ce.Args) != 0 {
+			return false
+		}
+		se, ok := ce.Fun.(*ast.SelectorExpr)
+		return ok && se.Sel.Name == "NumIn"
+	}
+	returnsErr := func(b *ast.BlockStmt) bool {
+		if len(b.List) == 0 {
+			return false
+		}
+		rs, ok := b.List[len(b.List)-1].(*ast.ReturnStmt)
+		return ok && len(rs.Results) == 2 && fmt.Sprint(rs.Results[0]) == "nil" && fmt.Sprint(rs.Results[1]) != "nil"
+	}
+	for _, s := range fd.Body.List {
+		switch st := s.(type) {
+		case *ast.IfStmt:
+			be, ok := st.Cond.(*ast.BinaryExpr)
+			if ok && st.Init == nil && be.Op == token.GTR && isNumIn(be.Y) && returnsErr(st.Body) {
+				if ce, ok := be.X.(*ast.CallExpr); ok && fmt.Sprint(ce.Fun) == "len" && len(ce.Args) == 1 && fmt.Sprint(ce.Args[0]) == argsName {
+					return true
+				}
+			}
+		case *ast.RangeStmt:
+			if fmt.Sprint(st.X) != argsName {
+				continue
+			}
+			key, ok := st.Key.(*ast.Ident)
+			if !ok || len(st.Body.List) == 0 {
+				return false
+			}
+			is, ok := st.Body.List[0].(*ast.IfStmt)
+			if !ok || is.Init != nil {
+				return false
+			}
+			be, ok := is.Cond.(*ast.BinaryExpr)
+			return ok && (be.Op == token.EQL || be.Op == token.GEQ) && fmt.Sprint(be.X) == key.Name &&
+				isNumIn(be.Y) && returnsErr(is.Body)
+		}
+	}
+	return false
 }
 
 func init() {
